@@ -97,6 +97,15 @@ fn cmd_vm(a: &Args) {
         println!("{}", json!({"records": n}));
         return;
     }
+    if fam == "long" {
+        // covenants of more than 2^20 instructions (no nesting), decoded and weighed through the public path in a child process
+        for k in [1_000_000usize, 1_048_576, 1_048_577, 1_100_000, a.u64("kmax", 2_000_000) as usize] {
+            out.put(vm::deep_record(k, true));
+        }
+        let n = out.finish();
+        println!("{}", json!({"records": n}));
+        return;
+    }
     if fam == "optable" {
         vm::optable(&mut out);
         let n = out.finish();
